@@ -261,12 +261,24 @@ def Mgr.handleAlive (g : Mgr) (m : Nat) (inc : Nat) : Mgr :=
     let (s', ok) := refute g.st m inc
     if ok then { g with st := s', suspicions := g.suspicions.filter (· ≠ m) } else g
 
+/-- `handle_ping_ack` : a successful indirect ping is direct evidence that `target` is alive —
+    `mark_healthy` and the pending suspicion is dropped, only for a member that is in the view;
+    an unsuccessful one changes nothing. -/
+def Mgr.handlePingAck (g : Mgr) (target : Nat) (success : Bool) : Mgr :=
+  if success then
+    match g.st.regs target with
+    | some _ => { g with st := (markHealthy g.st target).1, suspicions := g.suspicions.filter (· ≠ target) }
+    | none => g
+  else g
+
 /-- the gossip messages that touch the CRDT (plus `add_peer`) -/
 inductive Msg where
   | sync (sender : Nat) (states : List Update) (senderTime : Nat)
   | suspect (m : Nat) (inc : Nat)
   | alive (m : Nat) (inc : Nat)
   | addPeer (p : Nat)
+  | pingAck (target : Nat) (success : Bool)
+  deriving DecidableEq, Repr
 
 /-- `handle_gossip` -/
 def Mgr.handle (g : Mgr) : Msg → Mgr
@@ -274,6 +286,7 @@ def Mgr.handle (g : Mgr) : Msg → Mgr
   | .suspect m i => g.handleSuspect m i
   | .alive m i => g.handleAlive m i
   | .addPeer p => g.addPeer p
+  | .pingAck t ok => g.handlePingAck t ok
 
 def Mgr.run (g : Mgr) (msgs : List Msg) : Mgr := msgs.foldl Mgr.handle g
 
@@ -349,5 +362,104 @@ def Sys.step (y : Sys) : Step → Sys
   | .markHealthy r m => { y with nodes := setNode y.nodes r (markHealthy (y.nodes r) m).1 }
 
 def Sys.run (y : Sys) (steps : List Step) : Sys := steps.foldl Sys.step y
+
+/-! ### the sending side of the manager: `states_for_gossip`, `gossip_round`, `suspect_node` -/
+
+/-- insert into a list sorted by timestamp descending, before the first entry that is not newer
+    (so that `sortDesc` is stable, like `sort_by`) -/
+def insertDesc (u : Update) : List Update → List Update
+  | [] => [u]
+  | v :: vs => if u.reg.ts < v.reg.ts then v :: insertDesc u vs else u :: v :: vs
+
+/-- `states.sort_by(|a, b| b.timestamp.cmp(&a.timestamp))` : stable, newest first -/
+def sortDesc : List Update → List Update
+  | [] => []
+  | u :: us => insertDesc u (sortDesc us)
+
+/-- `states_for_gossip(max_count)`.  `order` is the iteration order of the `states` HashMap at the
+    time of the call (any list of member ids; an id that is not in the view contributes nothing):
+    collect the values, stable-sort them newest timestamp first, truncate to `max_count`. -/
+def statesForGossip (s : State) (order : List Nat) (k : Nat) : List Update :=
+  (sortDesc (snapshot s order)).take k
+
+/-- the `Sync` that `gossip_round` hands to the transport: `states_for_gossip(max_states_per_message)`
+    and the sender's Lamport time, read without ticking -/
+def Mgr.syncMsg (g : Mgr) (order : List Nat) (k : Nat) : Msg :=
+  .sync g.local_ (statesForGossip g.st order k) g.st.clock
+
+/-- `expire_suspicions` for the pending suspicions `expired` whose timer has run out, in the
+    iteration order of the `suspicions` map: the suspicion is dropped and the member is `fail`ed
+    (ids that are not pending are skipped). -/
+def Mgr.expire (g : Mgr) : List Nat → Mgr
+  | [] => g
+  | m :: ms =>
+    if g.suspicions.contains m then
+      Mgr.expire { g with suspicions := g.suspicions.filter (· ≠ m), st := (fail g.st m).1 } ms
+    else Mgr.expire g ms
+
+/-- `suspect_node` : the incarnation is the one held for `m` (0 for an unknown member); unless a
+    suspicion is already pending the CRDT `suspect` runs and the suspicion is recorded (also when
+    `suspect` refused). -/
+def Mgr.suspectInc (g : Mgr) (m : Nat) : Nat :=
+  match g.st.regs m with | some e => e.inc | none => 0
+
+def Mgr.suspectNode (g : Mgr) (m : Nat) : Mgr :=
+  if g.suspicions.contains m then g
+  else { g with st := (suspect g.st m (g.suspectInc m)).1, suspicions := m :: g.suspicions }
+
+/-- what can happen at one manager: a handled message, a `gossip_round` that found targets
+    (`order` = HashMap iteration order of the view, `k` = `max_states_per_message`, `expired` = the
+    suspicions whose timer has run out, in map order), a local `suspect_node` -/
+inductive MEv where
+  | msg (x : Msg)
+  | round (order : List Nat) (k : Nat) (expired : List Nat)
+  | suspectNode (m : Nat)
+  deriving DecidableEq, Repr
+
+def Mgr.stepEv (g : Mgr) : MEv → Mgr
+  | .msg x => g.handle x
+  | .round _ _ expired => g.expire expired
+  | .suspectNode m => g.suspectNode m
+
+/-- the CRDT-relevant messages the event hands to the transport: the `Alive` with the bumped own
+    incarnation when the local node is suspected, the `Sync` of a gossip round, the `Suspect`
+    broadcast of `suspect_node` (sent whether or not a suspicion was already pending) -/
+def Mgr.out (g : Mgr) : MEv → List Msg
+  | .msg (.suspect m _) => if m = g.local_ then [.alive g.local_ (g.ownInc + 1)] else []
+  | .msg _ => []
+  | .round order k _ => [g.syncMsg order k]
+  | .suspectNode m => [.suspect m (g.suspectInc m)]
+
+/-! ### the cluster of managers: every message in flight was produced by a manager -/
+
+structure Cluster where
+  nodes : Nat → Mgr
+  /-- messages handed to a transport so far (never removed: delay, duplication, reordering,
+      delivery to any node) -/
+  net : List Msg
+
+/-- node `r` is `GossipMembershipManager::new(r, max_incarnation_delta = d)` -/
+def Cluster.init (d : Nat) : Cluster := ⟨fun r => Mgr.new r d, []⟩
+
+/-- which events the environment may trigger at a node: API calls (`add_peer`, `gossip_round`,
+    `suspect_node`) and ping acks (their outcome is the transport's) at any time; `Sync`,
+    `Suspect` and `Alive` only when some manager has sent exactly that message -/
+def Cluster.enabled (c : Cluster) : MEv → Bool
+  | .msg (.addPeer _) => true
+  | .msg (.pingAck _ _) => true
+  | .msg x => decide (x ∈ c.net)
+  | .round _ _ _ => true
+  | .suspectNode _ => true
+
+def setMgr (nodes : Nat → Mgr) (r : Nat) (g : Mgr) : Nat → Mgr :=
+  fun k => if k = r then g else nodes k
+
+/-- event `e` at node `r` -/
+def Cluster.step (c : Cluster) (re : Nat × MEv) : Cluster :=
+  if c.enabled re.2 then
+    ⟨setMgr c.nodes re.1 ((c.nodes re.1).stepEv re.2), (c.nodes re.1).out re.2 ++ c.net⟩
+  else c
+
+def Cluster.run (c : Cluster) (steps : List (Nat × MEv)) : Cluster := steps.foldl Cluster.step c
 
 end Neumann.Gossip
